@@ -1,0 +1,31 @@
+//go:build verif
+
+package goatlang
+
+import "sync/atomic"
+
+// Instruction budget for verification runs: every dispatched instruction
+// costs one unit; when the budget reaches zero the script panics (and the
+// panic is converted to a run error like any other). A negative budget means
+// unlimited.
+
+const verifBudget = true
+
+var verifBudgetLeft atomic.Int64
+var verifTicks atomic.Int64
+
+func init() { verifBudgetLeft.Store(-1) }
+
+func VerifSetBudget(n int64) { verifBudgetLeft.Store(n) }
+func VerifTicks() int64      { return verifTicks.Load() }
+
+func (v *VM) verifTick() {
+	verifTicks.Add(1)
+	if verifBudgetLeft.Load() < 0 {
+		return
+	}
+	if verifBudgetLeft.Add(-1) <= 0 {
+		verifBudgetLeft.Store(0)
+		panic("verif: instruction budget exhausted")
+	}
+}
